@@ -7,6 +7,9 @@
     from a second table by position, so both tables must have the same row signature (R3.aligned);
  R4 results handler: for reporting and unexpected units pred_e, lower_a_e, upper_a_e are copies of results_e for every level,
     and pred_turnout is a copy of results_weights.
+ R5 gaussian aggregate: every group with outstanding units keeps a row in the matching of bounds and models (own model, else its
+    parent's, else the all-units model) - restated from C15.R3, because a group that falls out is filled with 0 and reports only
+    the counted votes of its reporting units.
 Lemma: R2 + C02.R2 give the aggregate floor and the zero-width interval of groups without nonreporting units (nonparametric).
 Not decided: finiteness (NaN from degenerate calibration sets) - numeric.
 """
@@ -188,3 +191,12 @@ def floor_alignment(ctx, rule, mb, F, gf, gs):
                     oka, detail = False, f"row order not derivable: {e}"
                 ctx.ob(rule, f"{gf.qualname}|{k} floor rows aligned with the bounds rows ({mode})", oka, gf.where(), detail)
     ctx.sites(rule, nal, 0, "columns of another table read inside the gaussian aggregate assign(lambda)")
+
+    # ---- R5 every outstanding group has modelled bounds (gaussian) ---------------------------------------------------
+    # R3's formula puts the floor on the groups that HAVE modelled bounds; a group with nonreporting units that falls out of the
+    # matching of bounds and gaussian models is filled with predicted_lower = predicted_upper = 0 and reports the counted votes of its
+    # reporting units only - below the counted votes as soon as a nonreporting unit has a partial count, and with zero width although
+    # units are outstanding. That every outstanding group is matched (own model, else parent, else all units) is C15.R3; the same
+    # obligations are restated here because the floor depends on them.
+    n5 = ctx.borrow("C15", "C15.R3.", "C03.R5.", "a group that falls out of the matching gets bounds at the counted votes of its reporting units only")
+    ctx.sites("C03.R5", n5, 5, "matching-loop obligations restated from C15.R3")
